@@ -35,6 +35,7 @@ LEVEL_NOTE = "Trusts the step observer (live WORKING vs displayed READY on absen
 
 CFG_A = gen.Cfg(facilities=True, max_time=[40, 80], float_mode=8, abs_max=14, abs_p=2, abs_size=6)
 CFG_B = gen.Cfg(
+    servable=3,
     facilities=True,
     worker_abs=False,
     auto_with_component=False,
